@@ -71,6 +71,9 @@ def _run_case(args):
     t0 = time.time()
     res = dict(unit=uname, case=ci, case_desc=_case_desc(case), obligations=[], paths=0, covers=[], error=None, undecided=None)
     try:
+        from . import ctx as _ctx
+        _ctx._CLI_CALLS[0] = 0
+        _ctx._NOT_DISCHARGED[0] = 0
         source.reset_cache()
         if mutation is not None:
             os.environ['PYVC_STOP_ON_FAIL'] = '1'
